@@ -306,4 +306,9 @@ theorem exec_eff {s s' : State} {c : Call} (h : exec s c = .ok s') :
       exact ⟨hs, .enable hue hc⟩
     · exact absurd h (by simp)
 
+/-- `exec_eff` with the call taken apart (so that `cases` on the `Eff` proof can unify the message index) -/
+theorem exec_eff' {s s' : State} {b : Block} {sender : Addr} {funds : List Coin} {msg : ExecMsg}
+    (h : exec s ⟨b, sender, funds, msg⟩ = .ok s') :
+    supported s.kind msg = true ∧ Eff s b sender funds msg s' := exec_eff h
+
 end LP.Sg721
